@@ -91,6 +91,77 @@ def lock_free_service(ctx, rid: str) -> None:
                       "without waiting for the lock", node=e, witness=pretty_path(path))
 
 
+def _flag_path(starts, goal, avoid):
+    """A normal-edge path from ``starts`` to ``goal`` that avoids ``avoid`` - keeping track of boolean locals that are
+    assigned constants on the way (``ok = False`` ... ``if not ok: break``), so that a flag set in a handler and tested later
+    does not look like a way around the handler."""
+    seen = set()
+    work = [(s, frozenset(), (s,)) for s in starts]
+    while work:
+        n, flags, path = work.pop()
+        key = (n, flags)
+        if key in seen or n in avoid:
+            continue
+        seen.add(key)
+        if n is goal:
+            return list(path)
+        known = dict(flags)
+        if n.kind == "store":
+            val = n.info.get("value")
+            for t in n.info.get("targets", []):
+                if isinstance(t, ast.Name):
+                    if isinstance(val, ast.Constant) and isinstance(val.value, bool):
+                        known[t.id] = val.value
+                    else:
+                        known.pop(t.id, None)
+        for lab, s in n.succ:
+            if lab in ("e", "p", "h"):
+                continue
+            if n.kind == "branch" and lab in ("t", "f"):
+                t_ = n.ast
+                neg = False
+                while isinstance(t_, ast.UnaryOp) and isinstance(t_.op, ast.Not):
+                    t_, neg = t_.operand, not neg
+                if isinstance(t_, ast.Name) and t_.id in known:
+                    outcome = known[t_.id] != neg
+                    if (lab == "t") != outcome:
+                        continue
+            work.append((s, frozenset(known.items()), path + (s,)))
+    return None
+
+
+def r09_12(ctx, u, cfg, main) -> None:
+    """A child ends by itself only when the source told *it* that it is exhausted."""
+    ctx.rule("R09.12", "a child leaves its loop only after the StopAsyncIteration of its own pull (nothing else - the size of the "
+                       "shared list, a sibling having finished - is read as \"the source is exhausted\": a sibling that was "
+                       "cancelled or closed also leaves the list)")
+    loops = [a for n in main for (k, a) in n.regions if k == "loop" and isinstance(a, ast.While)]
+    outer = loops[0] if loops else None
+    if outer is None:
+        return
+    heads = [n for n in main if n.ast is outer and n.kind == "nop"] or [n for n in main if n.ast is outer]
+    stop_handlers = {n for n in main if n.kind == "handler" and "StopAsyncIteration" in norm(n.info.get("type"))}
+    exits = []
+    for n in main:
+        if not n.in_region("loop", outer) or any(k == "finally" for (k, _a) in n.regions):
+            continue
+        innermost = [a for (k, a) in n.regions if k == "loop"]
+        if isinstance(n.ast, ast.Break) and getattr(n.ast, "asl_inline_return", False):
+            continue  # (the end of an inlined helper's body, not a statement of the loop)
+        if (isinstance(n.ast, ast.Break) and innermost and innermost[-1] is outer) or n.kind == "return":
+            exits.append(n)
+            continue
+        for lab, s_ in n.succ:
+            if lab in ("n", "t", "f", "stop") and not s_.in_region("loop", outer) and s_.kind != "raise_exit" and s_.ast is not outer \
+                    and not (isinstance(n.ast, ast.Break)):
+                exits.append(n)
+    for x in exits:
+        path = _flag_path(heads, x, stop_handlers)
+        ctx.check(path is None, "R09.12", u, x.stmt if x.stmt is not None else x.ast,
+                  "the loop is left only after the pull's StopAsyncIteration was seen in this round", node=x,
+                  witness=pretty_path(path))
+
+
 def run(ctx) -> None:
     ctx.rule("R09.1", "source pull inside the async-with-lock region")
     ctx.rule("R09.2", "own buffer re-checked (empty branch) between lock acquisition and pull")
@@ -127,6 +198,7 @@ def run(ctx) -> None:
     ctx.count("pull_sites", len(pulls))
     if not pulls:
         raise AnalysisError("tee_peer: no pull of the source iterator found (anchor moved)")
+    r09_12(ctx, u, cfg, main)
     enters = [n for n in main if n.kind == "enter" and isinstance(n.info.get("cm"), ast.Name)
               and n.info["cm"].id == P["lock"]]
 
